@@ -796,6 +796,21 @@ def h_keys_next(ex, name, args, path, depth, caller):
     yield from go(path, it.idx)
 
 
+def h_cell_set(ex, name, args, path, depth, caller):
+    cell = deref(args[0])
+    who = str(cell.t) if isinstance(cell, IntV) else repr(cell)
+    yield Outcome("return", path.event(("cell_set", who, deref(args[1]))), UNIT)
+
+
+def h_cell_get(ex, name, args, path, depth, caller):
+    yield Outcome("return", path, deref(args[0]))
+
+
+def h_regex_new(ex, name, args, path, depth, caller):
+    yield Outcome("return", path, EnumV("Result", "Ok", [OpaqueV("Regex")]))
+    yield Outcome("return", path, EnumV("Result", "Err", [OpaqueV("regex::Error")]))
+
+
 def h_event_call(ex, name, args, path, depth, caller):
     """a call recorded as an output event instead of being executed"""
     short = strip_generics(name).split("::")[-1]
@@ -821,6 +836,10 @@ def install_chrono(ex):
     add(r"^<(FixedOffset|Utc) as TimeZone>::from_utc_datetime$", h_from_utc_datetime)
     add(r"^<(FixedOffset|Local) as TimeZone>::from_local_datetime$", h_from_local_datetime)
     add(r"^LocalResult::<.*>::unwrap$", h_localresult_unwrap)
+    add(r"^Cell::<.*>::set$", h_cell_set)
+    add(r"^Cell::<.*>::(get|new)$", h_cell_get)
+    add(r"^regex::Regex::new$", h_regex_new)
+    add(r"^regex::Regex::split$|^core::str::<impl str>::lines$|^<.* as Iterator>::(map|collect)::<.*>$", h_opaque)
     add(r"^BTreeMap::<alloc::string::String, Rc<TokenInfo>>::keys$", h_fields_keys)
     add(r"^<alloc::collections::btree_map::Keys<.*> as IntoIterator>::into_iter$", h_identity_keep)
     add(r"^<alloc::collections::btree_map::Keys<.*> as Iterator>::next$", h_keys_next)
